@@ -211,15 +211,18 @@ def _init_worker(q):
         _CPU = None
 
 
-def work(job, watchdog_s=None):
-    binp, model, lines, tmo = job
+def work(job, watchdog_s=None, deadline=None):
+    binp, model, lines, tmo = job[:4]
+    if deadline is None and len(job) > 4:
+        deadline = job[4]
     cmd = [binp]
     if _CPU is not None and shutil.which("taskset"):
         cmd = ["taskset", "-c", str(_CPU), binp]
-    env = None
+    env = dict(vlib.ENV)
     if watchdog_s:
-        env = dict(vlib.ENV)
         env["MJVERIF_WATCHDOG_S"] = str(watchdog_s)
+    if deadline:
+        env["MJVERIF_DEADLINE_EPOCH"] = "%.1f" % deadline
     rc, out, err = sh(cmd, inp="\n".join(" ".join(map(str, l)) for l in lines) + "\n", timeout=tmo, env=env)
     res = {"runs": 0, "ends": 0, "truncated": 0, "broken": None, "viol": [], "mismatch": [], "incons": [], "hist": collections.Counter(),
            "nontrivial": set(), "distinct": set(), "samples": [], "kernel": []}
@@ -512,9 +515,15 @@ def main():
             if len(batch) >= 2:
                 flush(label, "release")
         flush("3+3 sampled", "release")
-    # biggest jobs first
-    weight = {"3+3": 4, "2+2": 3, "3+3 sampled": 2, "small": 1, "replay": 1}
-    order = sorted(range(len(jobs)), key=lambda i: -weight.get(meta[i][0], 1))
+    # wall-clock budget of the enumeration (the schedules not reached are reported as truncated enumerations, never as a
+    # pass of an exhaustive claim and never as a violation): most valuable suites first
+    budget = 1500 if chk.thorough else 95
+    deadline = None if case else time.time() + budget
+    weight = {"small": 4, "2+2": 3, "3+3 sampled": 2, "3+3": 1, "replay": 5}
+    order = sorted(range(len(jobs)), key=lambda i: (-weight.get(meta[i][0], 1), 0 if meta[i][1] == "release" else 1))
+    for j in jobs:
+        j[3] = (budget + 300) if not case else j[3]
+        j.append(deadline)
     results = [None] * len(jobs)
     import multiprocessing
     q = multiprocessing.Queue()
@@ -531,16 +540,20 @@ def main():
             results[futs[f]] = f.result()
     # A watchdog / time-out report may be a starved process on a loaded machine rather than a dead-lock: the input of
     # such a job is run again ALONE (nothing else of this check is running now, not pinned to a cpu), with a 60 s
-    # watchdog (still scaled by the load), up to 3 times.  A dead-lock introduced by a change reproduces every time.
+    # watchdog (still scaled by the load) and a 60 s budget, up to 3 times.  A dead-lock introduced by a change
+    # reproduces every time.  (At most 6 jobs are repeated: more broken jobs than that is not starvation.)
     retries = 0
+    first_reports = []
+    nbroken = sum(1 for r in results if r is not None and r["broken"])
     for i in range(len(jobs)):
         if results[i] is not None and results[i]["broken"]:
             first = results[i]["broken"]
+            first_reports.append(str(first)[:300])
+            if nbroken > 6:
+                continue
             for attempt in range(3):
                 retries += 1
-                j = list(jobs[i])
-                j[3] = j[3] * 3
-                r = work(tuple(j), watchdog_s=60)
+                r = work(tuple(jobs[i][:4]), watchdog_s=60, deadline=time.time() + 60)
                 if not r["broken"]:
                     r["hist"]["job repeated alone after a watchdog / time-out report (starved, not dead-locked)"] += 1
                     results[i] = r
@@ -548,6 +561,8 @@ def main():
                 results[i] = r
                 results[i]["broken"]["first_report"] = first
                 results[i]["broken"]["attempts_alone"] = attempt + 1
+    if first_reports:
+        chk.cov["watchdog_first_reports"] = first_reports[:5]
     chk.cov["watchdog_retries"] = retries
     chk.notes["schedules_s"] = round(time.time() - chk.t0 - chk.notes["build_s"], 1)
     # ---- aggregate -------------------------------------------------------------------------
